@@ -455,6 +455,27 @@ func c13Workload(run *vlib.Run, ts []*vlib.Target, nPolicies, rounds int) {
 						}
 						run.Count("policies_whose_groups_were_assembled_on_their_own_first", 1)
 					}
+					if (k+g)%16 == 5 {
+						// a caller of the exported builder at work in the same process: a small label program, assembled twice
+						// (a legitimate call sequence) - whatever that leaves behind must not show in the compilations
+						func() {
+							defer func() { recover() }()
+							bp := seccomp.NewProgram()
+							far, near := bp.NewLabel(), bp.NewLabel()
+							bp.LdLo(0)
+							bp.JmpIf(bpf.JumpEqual, uint32(k), far, near)
+							bp.SetLabel(near)
+							for x := 0; x < 3+(k%5)*70; x++ {
+								bp.LdHi(uint32(x % 6))
+							}
+							bp.Ret(vlib.RetAllow)
+							bp.SetLabel(far)
+							bp.Ret(vlib.RetErrno)
+							bp.Assemble()
+							bp.Assemble()
+						}()
+						run.Count("label_programs_assembled_twice_next_to_the_compilations", 1)
+					}
 					c := vlib.Compile(p, t)
 					run.Count("compilations", 1)
 					d0 := progDigest(c.Ins, c.Err)
